@@ -128,7 +128,7 @@ def stream_letters(seq):
   return L
 
 
-HUB_LETTERS = [("use",), ("hpeek", None), ("hpeek", 0), ("hpeek", 2), ("hpeek", 2.6),
+HUB_LETTERS = [("use",), ("happendto",), ("hpeek", None), ("hpeek", 0), ("hpeek", 2), ("hpeek", 2.6),
                ("hpeek", 5), ("hpeek", "inf"), ("hcopy",),
                ("hmap",), ("hfilter",), ("hskip", 1), ("hlimit", 1),
                ("happend",), ("htake",)]
@@ -177,7 +177,9 @@ class World(object):
             continue
           if self.pool == "hetero" and l[0] in ("hmap", "hfilter"):
             continue
-          if len(self.model) >= 5 and l[0] != "htake" and not l[0].startswith("hpeek"):
+          if len(self.model) >= 5 and l[0] not in ("htake", "happendto") and not l[0].startswith("hpeek"):
+            continue
+          if l[0] == "happendto" and not any(k_ == "s" for k_, _, _ in self.model.values()):
             continue
           out.append([h] + list(l))
     return out
@@ -337,6 +339,18 @@ class World(object):
       if obs != "new":
         self.new(Stream([]), "s", seq, sig)
       return "new", obs
+    if name == "happendto":
+      # the hub given as the argument of another Stream's append(): that is one use of the hub, taken
+      # at the call, and the stream goes on with the hub's whole sequence after its own items
+      tgt = min(i for i in self.live() if M[i][0] == "s")
+      tseq = M[tgt][1]
+      if left == 0:
+        return "IndexError", self._obs(lambda: ("self" if self.real[tgt].append(t) is self.real[tgt] else "other"))
+      M[h][1] = (seq, left - 1)
+      if tseq.finite:
+        M[tgt][1] = Seq(tseq.items + seq.items, seq.cycle)
+      M[tgt][2] = M[tgt][2] | {"append"}
+      return "self", self._obs(lambda: ("self" if self.real[tgt].append(t) is self.real[tgt] else "other"))
     # the remaining letters consume one use
     fns = {"use": (lambda: Stream(t), lambda: seq),
            "hmap": (lambda: t.map(ADD10), lambda: seq.map(ADD10)),
@@ -593,6 +607,62 @@ def run_long(case):
   return R(None, True, (src, len(handles)))
 
 
+# ------------------------------------------------ copies of Stream subclass instances
+class Tagged(Stream):
+  """A user subclass whose constructor does not take the data alone."""
+  def __init__(self, tag, data):
+    super(Tagged, self).__init__(data)
+    self.tag = tag
+
+
+def gen_subclasses(run):
+  for cls in ("control", "mixer", "tagged", "hub", "plain"):
+    for op in ("copy", "tee2", "tee3", "peek-then-tee"):
+      yield (cls, op)
+
+
+def run_subclasses(case):
+  """copy() / tee() of an instance of a Stream subclass (ControlStream, Streamix, a user subclass, a
+  hub use): every copy yields the sequence the original would have yielded, and so does the original."""
+  from audiolazy import ControlStream, Streamix
+  cls, op = case
+  def make():
+    if cls == "control":
+      return ControlStream(7), [7] * 6, True
+    if cls == "mixer":
+      sm = Streamix()
+      sm.add(0, [1, 2, 3])
+      sm.add(2, [10, 20])
+      return sm, [1, 2, 13, 20], False
+    if cls == "tagged":
+      return Tagged("t", [4, 5, 6]), [4, 5, 6], False
+    if cls == "hub":
+      return thub([4, 5, 6], 1), [4, 5, 6], False
+    return Stream([4, 5, 6]), [4, 5, 6], False
+  try:
+    obj, want, endless = make()
+    read = (lambda s_: s_.take(6)) if endless else (lambda s_: list(s_))
+    if op == "copy":
+      copies = [obj.copy()]
+    elif op == "peek-then-tee":
+      head = obj.peek(2)
+      if head != want[:2]:
+        return bad("subclass:peek", "peek on a %s instance" % cls, want[:2], head, True)
+      copies = list(lit.tee(obj, 2))
+    else:
+      copies = list(lit.tee(obj, int(op[3:])))
+    outs = [read(c) for c in copies]
+    if cls != "hub" and op == "copy":
+      outs.append(read(obj))                  # the original is still usable after copy()
+  except Exception as exc:
+    return bad("subclass:exception:" + type(exc).__name__, "%s of a %s instance raised" % (op, cls), want, str(exc)[:200], True)
+  for i, o in enumerate(outs):
+    if o != want:
+      return bad("subclass:value", "%s of a %s instance: copy %d does not yield the original's sequence" % (op, cls, i),
+                 want, o[:8], True)
+  return R(None, True, (cls, op))
+
+
 KINDS = OrderedDict([
   ("hist", Kind(None, run_hist, chunk=16, timeout=30,
                 rule="one case = one state (history); every enabled letter applied from it, then all handles drained")),
@@ -600,6 +670,7 @@ KINDS = OrderedDict([
   ("call-routes", Kind(gen_routes, run_routes, chunk=1,
                        rule="each function with every documented parameter set: all positional / all keyword / every split must agree")),
   ("long", Kind(gen_long, run_long, chunk=20, rule="3-operation permutations with counts 64..2500 on streams of 5000 items / endless, list model")),
+  ("subclasses", Kind(gen_subclasses, run_subclasses, chunk=2, timeout=20, rule="copy / tee of ControlStream, Streamix, a user subclass, a hub")),
 ])
 
 
